@@ -456,14 +456,17 @@ func (mr *msgReader) read(p []byte) (int, error) {
 		}
 
 		n, err := mr.c.readFramePayload(mr.ctx, p)
-		if err != nil {
-			return n, err
-		}
 
 		mr.payloadLength -= int64(n)
 
+		// Also unmask what a failed read did return: the caller is
+		// handed those n bytes together with the error.
 		if !mr.c.client {
-			mr.maskKey = mask(p, mr.maskKey)
+			mr.maskKey = mask(p[:n], mr.maskKey)
+		}
+
+		if err != nil {
+			return n, err
 		}
 
 		return n, nil
